@@ -164,8 +164,11 @@ PROPS["C02"] = {
 
 PROPS["C10"] = {
     "parts": [{"name": "err", "pkg": "c10", "chk": "chk_c10_err", "args": ["err"]},
-              {"name": "neg", "pkg": "c10", "chk": "chk_c10_neg", "args": ["neg"]}],
-    "reasons": {"err": {"1": "wrong HTTP status for the gRPC code, or the error's explicit HTTP status not honoured",
+              {"name": "neg", "pkg": "c10", "chk": "chk_c10_neg", "args": ["neg"]},
+              {"name": "trailers", "pkg": "c10", "chk": "chk_c10_trailers", "args": ["trailers"]}],
+    "reasons": {"trailers": {"6": "the target's allow-listed response header is not an HTTP header of the response",
+                             "7": "the target's allow-listed trailer is not visible as an HTTP header although nothing had been written when the call ended (error or empty stream before the first message, unary calls) - or not visible at all"},
+                "err": {"1": "wrong HTTP status for the gRPC code, or the error's explicit HTTP status not honoured",
                         "2": "empty error body, or body without the error message",
                         "3": "bound request: body is not a decodable google.rpc.Status with code, message and details",
                         "4": "unbound request answered with something other than plain text",
